@@ -56,7 +56,8 @@ def _common(g, o, directed, bad, label):
                 return edir
     if bool(g.has_cycles()) != o["cyc"]:
         bad.append((label + "has_cycles wrong", {"got": bool(g.has_cycles()), "want": o["cyc"], "edges": E}, None))
-    dist, npaths = {int(k): _fn(v) for k, v in o["dist"].items()}, {int(k): _fn(v) for k, v in o["npaths"].items()}
+    dist = {int(k): _fn(v) for k, v in o["dist"].items()}
+    npaths = {int(k): _fn(v) for k, v in o["npaths"].items()} if o["npaths"] else None     # None: above the path-counting scope
     for s in range(n):
         for t in range(n):
             if s == t:
@@ -68,9 +69,9 @@ def _common(g, o, directed, bad, label):
                         bad.append((label + "find_path returns a path between unconnected vertices", {"s": s, "t": t, "got": p}, None))
                 elif not _valid_path(p, s, t, edir):
                     bad.append((label + "find_path does not return a valid simple path", {"s": s, "t": t, "got": p, "method": method}, None))
-            allp = g.find_all_paths(s, t)
-            if len(allp) != npaths[s][t] or g.n_paths(s, t) != npaths[s][t] or len({tuple(p) for p in allp}) != len(allp) or not all(
-                    _valid_path([int(x) for x in p], s, t, edir) for p in allp):
+            allp = g.find_all_paths(s, t) if npaths is not None else []
+            if npaths is not None and (len(allp) != npaths[s][t] or g.n_paths(s, t) != npaths[s][t] or len({tuple(p) for p in allp}) != len(allp) or not all(
+                    _valid_path([int(x) for x in p], s, t, edir) for p in allp)):
                 bad.append((label + "find_all_paths / n_paths wrong", {"s": s, "t": t, "got": len(allp), "want": npaths[s][t]}, None))
             # unweighted shortest path: route realises the BFS distance
             route, cost = g.find_shortest_path(s, t, unweighted=True)
